@@ -34,6 +34,14 @@ def check(ctx: Ctx) -> None:
     r4(ctx)
     r5(ctx)
     r10_log_order(ctx)
+    # a lock broken while its holder is alive lets two commits land on one base: the second pointer write erases a committed
+    # snapshot from history - lock ages (LastModified) must be UTC-correct
+    from .c20 import r11_utc_ages
+    r11_utc_ages(ctx, "C09.R11")
+    from .c20 import r9_key_roundtrip
+    r9_key_roundtrip(ctx, "C09.R12")
+    from .c04 import r3 as c04_r3
+    ctx.shared(c04_r3, "C04.R3", "C09.R13", "an ambiguous commit's files are kept: the snapshot may be committed")
     # collections must leave every retained snapshot readable: the collector's reachability / delete-guard rules are shared
     from .c05 import r1 as c05_r1, r1_noskip, r3 as c05_r3
     c05_r1(ctx, "C09.R6")
